@@ -129,7 +129,7 @@ func cmdCheck(args []string) {
 	var units []*Unit
 	funcs := map[string]bool{}
 	for fn, con := range e.cons {
-		if con.Trusted || !hasProp(con.Props, cfg.ID) {
+		if con.Trusted || !hasProp(con.Props, cfg.ID) || pureOnly(con) {
 			continue
 		}
 		funcs[fn.String()] = true
